@@ -114,7 +114,22 @@ class Recorder:
 
         o_spsq = TS.__dict__["solve_for_psi_squared"].__func__
 
+        class _RaisingOperator:
+            """Stands in for the Laplacian of one call: the product psi_laplacian @ psi is evaluated INSIDE the method's
+            arithmetic block, so a fault raised here arrives in the middle of that block."""
+
+            def __init__(self, inner, exc):
+                self.inner, self.exc = inner, exc
+
+            def __matmul__(self, other):
+                raise self.exc
+
         def w_spsq(**kw):
+            ctx0 = rec.cur
+            if ctx0 is not None and rec.failpoints is not None and hasattr(rec.failpoints, "inside_spsq"):
+                exc_ = rec.failpoints.inside_spsq(stage=rec.stage, step=ctx0["step"], n=ctx0["spsq_calls"])
+                if exc_ is not None:
+                    kw = dict(kw, psi_laplacian=_RaisingOperator(kw["psi_laplacian"], exc_))
             res = o_spsq(**kw)
             ctx = rec.cur
             if ctx is not None:
